@@ -249,3 +249,31 @@ def run(prop, tier):
         assumptions=["simulated Lightning node / chain / wallet / peer (harness/l1); Bitcoin validator and script builder are the real ones",
                      "bounds of the TLC configurations as listed under models"])
     return rc
+
+
+def replay(prop, path):
+    """./check <prop> --replay <replays/.../sched-*.json>: re-executes one schedule on the real code and prints what the observer says."""
+    rp = json.load(open(path))
+    sched = rp.get("schedule", rp)
+    wd = vp.workdir("replay")
+    try:
+        binp = vp.build_harness("./cmd/psim")
+        sd = vp.spec_copy(wd)
+        sp = os.path.join(wd, "s.ndjson")
+        open(sp, "w").write(json.dumps(sched) + "\n")
+        trace = os.path.join(wd, "trace.ndjson")
+        cmd = [binp, "-schedules", sp, "-out", trace, "-workers", "1"]
+        if sched.get("psim_flags"):
+            cmd += sched["psim_flags"].split()
+        vp.run(cmd)
+        os.makedirs(os.path.join(sd, "v"), exist_ok=True)
+        vp.validate_trace("PeerSwapTrace", "PeerSwapTrace.cfg", sd, trace)
+        sigs = sorted({x["sig"] for p in glob.glob(os.path.join(sd, "v", "*.json")) for x in json.load(open(p))["viol"]})
+        for ln in open(trace):
+            e = json.loads(ln)
+            if e["ev"] in ("drive", "persist", "send", "ln.htlc", "ln.payfee", "wallet.open", "wallet.spend", "crash", "fault", "ret"):
+                print("  ", {k: v for k, v in e.items() if k in ("ev", "a", "kind", "sid", "prev", "cur", "res", "ok", "gate", "when", "what", "to")})
+        print("observer verdict:", sigs or "no violation")
+        return 1 if any(x.startswith(prop + "|") for x in sigs) else 0
+    finally:
+        vp.cleanup(wd)
